@@ -1,7 +1,167 @@
-import CB.Driver.Util
-namespace CB
+/-
+  CB.Driver.C08 — line protocol of property C08 (Montgomery forms over operation histories).
 
-/-- operations of property C08 (op names start with `c08.`) -/
-def dispatchC08 : Dispatch := fun _ _ => none
+    c08.hist <kind> <n> <modulus> <step;step;…>     kind ∈ dyn dynv const boxed boxedv
+        step = name[.form],arg,…   (see `parseStep`); prints `mod=<m>` and, after every step,
+        `<montgomery form>:<retrieve()>` of the value the step produced or overwrote
+    c08.params <kind> <n> <modulus>                 the six parameter fields
+    c08.params_eq <n> <modulus>                     constructor agreement (1/0 flags)
+    c08.redc <n> <lower> <upper> <modulus> <k>      public `montgomery_reduction`
+    c08.mul_mod <kind> <n> <a> <b> <p>              `Uint::mul_mod` / `BoxedUint::mul_mod`
+  Every line is printed as `L1 ;; L0` (L1 = limb model, L0 = what the property demands).
+-/
+import CB.Driver.Util
+import CB.Model.Monty
+namespace CB
+open CB.Monty
+
+private def decArgs (l : List String) : Option (List Nat) := l.mapM String.toNat?
+
+/-- one history step: `name[.form],args` → `MontyOp` (the `.form` suffix names the Rust surface form). -/
+def parseStep (s : String) : Option MontyOp :=
+  match s.splitOn "," with
+  | [] => none
+  | nameForm :: args =>
+    let name := (nameForm.splitOn ".").head!
+    match name, args with
+    | "new", [v] => (hexToNat? v).map MontyOp.new
+    | "zero", [] => some .zero
+    | "one", [] => some .one
+    | "conv", [] => some .conv
+    | "select", [i, j, c] =>
+      match i.toNat?, j.toNat?, c with
+      | some i, some j, "0" => some (.select i j false)
+      | some i, some j, "1" => some (.select i j true)
+      | _, _, _ => none
+    | _, _ =>
+      let form := ((nameForm.splitOn ".").drop 1).headD ""
+      let assign := form = "a" || form = "av" || form = "mm" || form = "ai"
+      match name, decArgs args with
+      | "add", some [i, j] => some (if assign then .addAssign i j else .add i j)
+      | "sub", some [i, j] => some (if assign then .subAssign i j else .sub i j)
+      | "mul", some [i, j] => some (if assign then .mulAssign i j else .mul i j)
+      | "neg", some [i] => some (.neg i)
+      | "double", some [i] => some (.double i)
+      | "square", some [i] => some (if assign then .squareAssign i else .square i)
+      | "div2", some [i] => some (if assign then .div2Assign i else .div2 i)
+      | "copy", some [i, j] => some (.copyFrom i j)
+      | _, _ => none
+
+private def handlesOk (len : Nat) : MontyOp → Bool
+  | .add i j | .sub i j | .mul i j | .addAssign i j | .subAssign i j | .mulAssign i j
+  | .select i j _ | .copyFrom i j => i < len && j < len
+  | .neg i | .double i | .square i | .div2 i | .squareAssign i | .div2Assign i => i < len
+  | .conv => 0 < len
+  | _ => true
+
+private def kindInit (kind : String) (ms : List Nat) : Option (Rep × Params) :=
+  match kind with
+  | "dyn" => some (.dyn, paramsNew ms)
+  | "dynv" => some (.dyn, paramsNewVartime ms)
+  | "const" => some (.const, paramsConst ms)
+  | "boxed" => some (.boxed, paramsBoxed ms)
+  | "boxedv" => some (.boxed, paramsBoxed ms)
+  | _ => none
+
+/-- run the history on the limb model, one output token per step. -/
+private def histL1 (st : State) : List MontyOp → List String → Option (List String)
+  | [], acc => some acc.reverse
+  | op :: ops, acc =>
+    if !handlesOk st.store.length op then none else
+    let idx := affected st op
+    let st' := step st op
+    let v := st'.get idx
+    histL1 st' ops (s!"{limbsHex v}:{limbsHex (opRetrieve st' v)}" :: acc)
+
+/-- the same history on residues. -/
+private def histL0 (n m : Nat) (sp : List Nat) (len : Nat) : List MontyOp → List String → List String
+  | [], acc => acc.reverse
+  | op :: ops, acc =>
+    let idx := match op with
+      | .addAssign i _ | .subAssign i _ | .mulAssign i _ | .squareAssign i | .div2Assign i
+      | .copyFrom i _ => i
+      | .conv => len - 1
+      | _ => len
+    let sp' := stepSpec m sp op
+    let x := sget sp' idx
+    histL0 n m sp' sp'.length ops (s!"{limbsHex (canon n m x)}:{natToHex x}" :: acc)
+
+private def paramsTok (p : Params) : String :=
+  s!"mod={limbsHex p.modulus} one={limbsHex p.one} r2={limbsHex p.r2} r3={limbsHex p.r3} k={natToHex p.modNegInv} lz={p.modLeadingZeros}"
+
+/-- `−m⁻¹ mod 2^(64 n)` by Newton doubling (value level; only used for the L0 of `c08.redc`). -/
+private def negInvFull (n m : Nat) : Nat :=
+  let R := B ^ n
+  let stp := fun x => (x * ((R + 2 - (m * x) % R) % R)) % R
+  let x := (List.range 13).foldl (fun x _ => stp x) (m % R)
+  (R - x) % R
+
+def dispatchC08 : Dispatch := fun op args =>
+  match op, args with
+  | "c08.hist", [kind, n, m, ops] =>
+    match n.toNat?, hexToNat? m with
+    | some n, some m =>
+      let ms := toLimbs n m
+      match kindInit kind ms, (ops.splitOn ";").mapM parseStep with
+      | some (rep, p), some ops =>
+        match histL1 { rep := rep, params := p, store := [] } ops [] with
+        | some l1 =>
+          let l0 := histL0 n m [] 0 ops []
+          some (s!"mod={natToHex m} " ++ " ".intercalate l1 ++ " ;; " ++ s!"mod={natToHex m} " ++ " ".intercalate l0)
+        | none => badArgs
+      | _, _ => badArgs
+    | _, _ => badArgs
+  | "c08.params", [kind, n, m] =>
+    match n.toNat?, hexToNat? m with
+    | some n, some m =>
+      let ms := toLimbs n m
+      let p? : Option Params := match kind with
+        | "dyn" => some (paramsNew ms)
+        | "dynv" => some (paramsNewVartime ms)
+        | "const" | "dynfromconst" | "boxedfromconst" => some (paramsConst ms)
+        | "boxed" | "boxedv" => some (paramsBoxed ms)
+        | _ => none
+      match p? with
+      | some p => some (paramsTok p ++ " ;; " ++ paramsTok (paramsSpec n m))
+      | none => badArgs
+    | _, _ => badArgs
+  | "c08.params_eq", [n, m] =>
+    match n.toNat?, hexToNat? m with
+    | some n, some m =>
+      let ms := toLimbs n m
+      let b := fun (x : Bool) => if x then "1" else "0"
+      some (s!"{b (decide (paramsNew ms = paramsNewVartime ms))} {b (decide (paramsBoxed ms = paramsBoxed ms))} {b (decide (paramsNew ms = paramsBoxed ms))} ;; 1 1 1")
+    | _, _ => badArgs
+  | "c08.params_eq_const", [n, m] =>
+    match n.toNat?, hexToNat? m with
+    | some n, some m =>
+      let ms := toLimbs n m
+      let b := fun (x : Bool) => if x then "1" else "0"
+      some (s!"{b (decide (paramsConst ms = paramsNew ms))} {b (decide (paramsConst ms = paramsBoxed ms))} ;; 1 1")
+    | _, _ => badArgs
+  | "c08.redc", [n, lo, hi, m, k] =>
+    match n.toNat?, hexToNat? lo, hexToNat? hi, hexToNat? m, hexToNat? k with
+    | some n, some lo, some hi, some m, some k =>
+      let ms := toLimbs n m
+      let r := montgomeryReduction (toLimbs n lo) (toLimbs n hi) ms k
+      let T := lo + B ^ n * hi
+      -- L0 only where the property speaks: m odd, k·m ≡ −1 (mod B), T < m·R
+      if m % 2 = 1 ∧ (k * m + 1) % B = 0 ∧ T < m * B ^ n ∧ n > 0 then
+        let rinv := ((1 + m * negInvFull n m) / B ^ n) % m
+        some (s!"{limbsHex r} ;; {natToHex ((T * rinv) % m)}")
+      else some (limbsHex r)
+    | _, _, _, _, _ => badArgs
+  | "c08.mul_mod", [kind, n, a, b, p] =>
+    match n.toNat?, hexToNat? a, hexToNat? b, hexToNat? p with
+    | some n, some a, some b, some p =>
+      let ms := toLimbs n p
+      match kindInit kind ms with
+      | some (rep, prm) =>
+        let st : State := { rep := rep, params := prm, store := [] }
+        let r := opRetrieve st (opMul st (opNew st a) (opNew st b))
+        some (s!"{limbsHex r} ;; {natToHex ((a * b) % p)}")
+      | none => badArgs
+    | _, _, _, _ => badArgs
+  | _, _ => none
 
 end CB
